@@ -402,7 +402,9 @@ _FAMS = ["halo_n", "lyapunov", "halo_s"]
 def orbit_case(sysname, Lp, fam):
     @st.composite
     def _s(draw):
-        return {"sys": sysname, "L": Lp, "family": fam, "log_amp": draw(st.floats(-2.0, -0.25, allow_nan=False, width=32))}
+        return {"sys": sysname, "L": Lp, "family": fam, "log_amp": draw(st.floats(-2.0, -0.25, allow_nan=False, width=32)),
+                # the same periodic orbit re-expressed from a point OFF the symmetry section (GenericOrbit started at phase*T)
+                "phase": draw(st.sampled_from([None, 0.3, 0.3, 0.62, 0.11]))}
     return _s()
 
 
@@ -487,6 +489,34 @@ def eval_orbit(case, ctx):
     if not _within("orbit:symplectic", d, tol_sym):
         ctx.fail("orbit-monodromy-not-symplectic:" + where, case, "|M^T J M - J|_2 = %.3e > %.3e (%s)" % (d, tol_sym, info))
     check_spectrum(ctx, case, "orbit", where, nu, ev, Mo, e_m, info, complete=True)
+    # the monodromy of the SAME periodic orbit started at a point off the symmetry section: "for a periodic orbit the
+    # monodromy matrix maps the orbit's velocity vector to itself" and is the derivative of the period map at the
+    # orbit's own initial state, wherever on the orbit that state lies
+    ph = case.get("phase")
+    if ph is not None and nt:
+        try:
+            from hiten.system.orbits.base import GenericOrbit
+            xp = np.array(ref.sol(ph * T)[:6], dtype=float)
+            g = GenericOrbit(Lpt, initial_state=xp)
+            g.period = T
+            Mg = np.array(g.monodromy, dtype=float)
+        except Exception as e:
+            ctx.case(cls="orbit:%s:off-section:not-produced:%s" % (where, type(e).__name__))
+            return
+        _, Mp = O.flow_stm(xp, T, mu, rtol=1e-13, atol=1e-13)
+        Lp_ = max(L, float(np.linalg.norm(Mp, 2)))
+        tol_p = 10 * K_PHI * (eps_x + 1e-12 * (1.0 + Lp_)) * Lp_ * geo
+        ctx.case(nontrivial=("orbit-off-section", repr(case)), cls="orbit:%s:off-section" % where)
+        e_p = float(np.linalg.norm(Mg - Mp, 2))
+        if not e_p <= tol_p:
+            ctx.fail("orbit-monodromy-vs-oracle:off-section:" + where, case,
+                     "orbit started at phase %.2f: |M_lib - Phi_ref(T)|_2 = %.3e > %.3e (%s)" % (ph, e_p, tol_p, info))
+            return
+        fp = O.field(xp, mu)
+        e_f = float(np.linalg.norm(Mg @ fp - fp))
+        if not e_f <= 2 * lip * closure * Lp_ + tol_p * float(np.linalg.norm(fp)):
+            ctx.fail("monodromy-does-not-fix-orbit-velocity:off-section:" + where, case,
+                     "orbit started at phase %.2f: |M f(x0) - f(x0)| = %.3e (%s)" % (ph, e_f, info))
 
 
 def check_spectrum(ctx, case, prefix, where, nu, ev, Mo, e_m, info, complete):
